@@ -3,6 +3,7 @@ package main
 import (
 	"fmt"
 	"go/types"
+	"regexp"
 	"strings"
 
 	"golang.org/x/tools/go/ssa"
@@ -57,6 +58,12 @@ func (v Val) T() *T {
 	}
 	return v.C[0]
 }
+
+var (
+	byteRe = regexp.MustCompile(`\bbyte\b`)
+	runeRe = regexp.MustCompile(`\brune\b`)
+	anyRe  = regexp.MustCompile(`\bany\b`)
+)
 
 type layoutCache struct {
 	m map[types.Type][]Comp
@@ -151,6 +158,10 @@ func tupleRange(tp *types.Tuple, i int) (int, int) {
 // typeKey yields a stable SMT-safe name for a type.
 func typeKey(t types.Type) string {
 	s := types.TypeString(t, func(p *types.Package) string { return p.Name() })
+	// byte and rune are aliases: one memory region per real type
+	s = byteRe.ReplaceAllString(s, "uint8")
+	s = runeRe.ReplaceAllString(s, "int32")
+	s = anyRe.ReplaceAllString(s, "interface{}")
 	return sanitize(s)
 }
 
